@@ -94,7 +94,7 @@ PERCENTAGES = [0.6, 0.997]
 PERCENTAGES_T = [0.6, 0.997, 0.4]
 NMODELS = [2, 3, 5, 30]
 MIX_RATIOS = [1.5]
-MIX_RATIOS_T = [1.5, 1.0, 20.0]
+MIX_RATIOS_T = [1.5, 20.0]
 
 HARNESS = {"hyp": None, "n": None}
 
@@ -354,48 +354,54 @@ def _cfg(kind, n, layout, thr, pp, cov, mode, mix, seed, depth, shape_shift, via
             "mode": mode, "mix": mix, "seed": seed, "depth": depth, "shape_shift": shape_shift, "via_results": via_results}
 
 
-def _depth(tier, n, mode):
+def _depth(tier, n, mode, deep=False):
     if tier == "quick":
         if mode != "direct":
             return 3
         return 2 if n >= 30 else 3
     if mode != "direct":
-        return 3 if n >= 30 else 4
+        return 4 if n <= 3 else 3
+    if deep:
+        return 5
     return 3 if n >= 30 else 4
 
 
 def configs(tier, seed):
     out = []
-    pps = PERCENTAGES if tier == "quick" else PERCENTAGES_T
-    mixes = MIX_RATIOS if tier == "quick" else MIX_RATIOS_T
+    quick = tier == "quick"
     k = 0
     for kind in KINDS:
         thrs = THRESHOLDS if kind == "smm" else [1e-20]
         for n in NMODELS:
+            pps = PERCENTAGES if quick or n > 3 else PERCENTAGES_T
+            mixes = [1.5] if kind == "smm" or quick else [1.5, 20.0]
             for layout in LAYOUTS:
                 for thr in thrs:
                     for pp in pps:
-                        for mix in (mixes if kind == "gpb1" else [1.5]):
+                        for mix in mixes:
                             k += 1
                             # quick: the two covariance variants alternate over the lattice (GPB1: both); thorough: both
-                            if tier == "quick" and kind == "smm":
+                            if quick and kind == "smm":
                                 covs = ["same"] if k % 2 else ["scaled"]
                             else:
                                 covs = ["same", "scaled"]
                             for j, cov in enumerate(covs):
+                                deep = (not quick) and n == 2 and cov == "same" and layout in ("1s", "30s")
                                 out.append(_cfg(kind, n, layout, thr, pp, cov, "direct", mix, seed,
-                                                _depth(tier, n, "direct"), (k + seed) % 4, via_results=bool((k // 2 + j) % 2)))
+                                                _depth(tier, n, "direct", deep), (k + seed) % 4,
+                                                via_results=bool((k // 2 + j) % 2)))
     # the agent-level lattice (closure hand-back through EstimateAgent)
     k = 0
     for kind in KINDS:
         thrs = [1e-20, 0.05, 0.6] if kind == "smm" else [1e-20]
-        for n in ([2, 3, 5] if tier == "quick" else [2, 3, 5, 30]):
-            for layout in (["1s", "30s", "far0"] if tier == "quick" else LAYOUTS):
+        for n in ([2, 3, 5] if quick else [2, 3, 5, 30]):
+            layouts = ["1s", "30s", "far0"] if quick else LAYOUTS if n < 30 else ["1s", "far0"]
+            for layout in layouts:
                 for thr in thrs:
                     for pp in PERCENTAGES:
                         k += 1
                         modes = ["agent_serial", "agent_parallel"]
-                        if tier == "quick":
+                        if quick:
                             modes = [modes[k % 2]]
                         for mode in modes:
                             out.append(_cfg(kind, n, layout, thr, pp, "same", mode, 1.5, seed,
@@ -753,6 +759,17 @@ def check_handback(ctx, sysm, mid, exp, af, cf, models, w, decided):
                        "extra": cf.extra_parameters},
              expected={"type": "UnscentedKalmanFilter", "time": float(af.time), "adaptive_estimation": True,
                        "extra": af._original_filter.extra_parameters})  # noqa: SLF001
+    # the step products the agent records from the handed-back filter are those of the survivor (SMM: the single
+    # model, weight one) / of the merged estimate (GPB1: the probability-weighted products checked above)
+    src = models[0] if cfg["kind"] == "smm" and ok_one else af
+    badf = []
+    for name in ("pred_x", "pred_p", "innovation", "nis", "mean_pred_y", "r_matrix", "cross_cvr", "innov_cvr", "kalman_gain", "true_y"):
+        a, b = getattr(cf, name, None), getattr(src, name, None)
+        if a is None or b is None or not _close(a, b, rel=1e-12)[0]:
+            badf.append(name)
+    if cf.source != af.source or not np.array_equal(np.asarray(cf.is_angular), np.asarray(src.is_angular)):
+        badf.append("source/is_angular")
+    ctx.case("closure/handed_back_step_products", not badf, observed=badf, expected="prediction, innovation, NIS, S, C, K, y, R of the survivor")
     if decided and cfg["kind"] == "smm" and ok_one:
         # ... and it is the model the reference expects to survive, with the reference's own posterior
         e = exp["per"][exp["survivors"][0]] if not exp["prune_all"] else exp["per"][mid["tags"].index(models[0].verif_tag)]
